@@ -37,7 +37,7 @@ def evaluate(case, stt):
     fails = []
     prog = case["prog"]
     r1 = render.render(prog, render.Tape(case["t1"]), render.Tape(case["l1"]) if case["l1"] else None)
-    r2 = render.render(prog, render.Tape(case["t2"]), render.Tape(case["l2"]))
+    r2 = render.render(prog, render.Tape(case["t2"]), render.Tape(case["l2"]), cr=True)
     dims = (r1.dims ^ r2.dims) | ({"layout"} if r1.text != r2.text else set())
     # dimensions in which the two texts really differ
     for d in sorted(r1.dims | r2.dims):
